@@ -187,3 +187,54 @@ Lemma guards_exclude_witnesses :
   log_okb (evlog (fst (wrun (wcfg 0) w_order_ops))) = false /\
   clean_logb (evlog (fst (wrun (wcfg 50) w_once_ops))) = false.
 Proof. split; vm_compute; reflexivity. Qed.
+
+(* ---------- completeness: the frame length has to fit into maxLate too ----------
+   a frame of six packets, then a single-packet frame, delivered in order with a Pop after
+   every Push, maxLate 4 (so 2 d + 4 <= maxLate with d = 0): when the fifth packet arrives
+   filled.count() exceeds maxLate, the forced build finds no frame end and purgeBuffers
+   drops the frame's first packet *)
+Definition w_long_frames : list (list packet) :=
+  [[wp 0 10 1000 1; wp 1 11 1000 0; wp 2 12 1000 0; wp 3 13 1000 0; wp 4 14 1000 0; wp 5 15 1000 2];
+   [wp 6 16 2000 3]].
+Definition w_long_ops : list op :=
+  flat_map (fun p => [OPush p; OPop]) (concat w_long_frames).
+
+Lemma long_frame_witness :
+  stream_ok fk_is_head fk_is_tail w_long_frames /\ delivers 0 w_long_frames w_long_ops /\
+  first_pushed_is_lowest w_long_frames w_long_ops /\
+  history_ok w_long_ops /\
+  fault (fst (wrun (wcfg 4) (w_long_ops ++ OFlush :: repeat OPop (List.length w_long_frames)))) = 0 /\
+  ~ all_frames_emitted w_long_frames
+      (snd (wrun (wcfg 4) (w_long_ops ++ OFlush :: repeat OPop (List.length w_long_frames)))).
+Proof.
+  assert (Hp : pushed_of w_long_ops = concat w_long_frames) by reflexivity.
+  split; [|split; [|split; [|split; [|split]]]].
+  - unfold stream_ok. split; [|split; [|split; [|split]]].
+    + apply Forall_cons; [|apply Forall_cons; [|apply Forall_nil]]; cbn [frame_ok].
+      * split; [reflexivity|]. split; [|split; [reflexivity|]].
+        -- intros p Hin. cbn in Hin.
+           repeat match goal with H : _ \/ _ |- _ => destruct H as [<-|H] end; try contradiction; split; reflexivity.
+        -- intros p Hin. cbn in Hin.
+           repeat match goal with H : _ \/ _ |- _ => destruct H as [<-|H] end; try contradiction; reflexivity.
+      * split; [reflexivity|]. split; [intros p []|]. split; [reflexivity|intros p []].
+    + cbn. repeat split; discriminate.
+    + exists 10. split; [reflexivity|vm_compute; reflexivity].
+    + vm_compute. reflexivity.
+    + repeat constructor; cbn; intuition discriminate.
+  - split; [|split].
+    + rewrite Hp. apply Permutation.Permutation_refl.
+    + intros i j p Hi Hj. rewrite Hp in Hj.
+      assert (Hnd : NoDup (concat w_long_frames)).
+      { apply (NoDup_map_inv p_id). repeat constructor; cbn; intuition discriminate. }
+      pose proof (proj1 (NoDup_nth_error _) Hnd i j) as Hinj.
+      assert (i = j). { apply Hinj; [apply nth_error_Some; congruence|congruence]. }
+      subst. split; lia.
+    + intros o Ho. unfold w_long_ops in Ho. apply in_flat_map in Ho. destruct Ho as (p & _ & [<-|[<-|[]]]); discriminate.
+  - reflexivity.
+  - apply history_ok_intro; [reflexivity|repeat constructor; cbn; intuition discriminate].
+  - vm_compute. reflexivity.
+  - assert (E : map s_pkts (snd (wrun (wcfg 4) (w_long_ops ++ OFlush :: repeat OPop (List.length w_long_frames))))
+                = [[wp 6 16 2000 3]]) by (vm_compute; reflexivity).
+    intro H. destruct (H _ (or_introl eq_refl)) as (x & Hin & Hx).
+    apply (in_map s_pkts) in Hin. rewrite E, Hx in Hin. cbn in Hin. intuition discriminate.
+Qed.
